@@ -1147,3 +1147,111 @@ Proof.
   split; [intros x _; apply rndx_rel|cbn [length Nat.add INR]; pose proof ux_small; lra].
 Qed.
 
+(* ---- recursive summation (sum_slice / sum) "to rounding accuracy": standard model, and the primitive floats with NO side
+   condition beyond a finite result (float additions never lose relative accuracy to underflow) ---- *)
+From OV Require Import Proofs.RoundSum.
+
+Theorem sum_slice_backward_error : forall (u : R), (0 <= u < 1)%R ->
+  forall (fadd fsub fmul fdiv : R -> R -> R),
+  (forall x y : R, exists d : R, (Rabs d <= u)%R /\ fadd x y = ((x + y) * (1 + d))%R) ->
+  forall (v : list R) (s e : nat) (r : R),
+  (INR (length (slice v s e)) * u < 1)%R -> sum_slice (A := ARm fadd fsub fmul fdiv) v s e = Ok r ->
+  exists th : nat -> R,
+    (forall k, (k < length (slice v s e))%nat -> (Rabs (th k) <= gam u (length (slice v s e)))%R) /\
+    r = Rsum (length (slice v s e)) (fun k => (nth k (slice v s e) 0 * (1 + th k))%R).
+Proof. intros u Hu fadd fsub fmul fdiv Ha v s e r. exact (sum_slice_backward_error_lemma u Hu fadd fsub fmul fdiv Ha v s e r). Qed.
+Check sum_slice_backward_error : forall (u : R), (0 <= u < 1)%R ->
+  forall (fadd fsub fmul fdiv : R -> R -> R),
+  (forall x y : R, exists d : R, (Rabs d <= u)%R /\ fadd x y = ((x + y) * (1 + d))%R) ->
+  forall (v : list R) (s e : nat) (r : R),
+  (INR (length (slice v s e)) * u < 1)%R -> sum_slice (A := ARm fadd fsub fmul fdiv) v s e = Ok r ->
+  exists th : nat -> R,
+    (forall k, (k < length (slice v s e))%nat -> (Rabs (th k) <= gam u (length (slice v s e)))%R) /\
+    r = Rsum (length (slice v s e)) (fun k => (nth k (slice v s e) 0 * (1 + th k))%R).
+Print Assumptions sum_slice_backward_error.
+Example sum_slice_backward_error_nonvacuous :
+  let v := [1%R; 2%R; 3%R; 4%R] in
+  (0 <= ux < 1)%R /\
+  (forall x y : R, exists d : R, (Rabs d <= ux)%R /\ xadd x y = ((x + y) * (1 + d))%R) /\
+  (INR (length (slice v 1 2)) * ux < 1)%R /\ length (slice v 1 2) = 2%nat /\
+  exists r, sum_slice (A := AFlx) v 1 2 = Ok r.
+Proof.
+  cbn zeta. split; [exact ux_range|]. split; [exact xadd_ok|].
+  split; [cbn; pose proof ux_small; lra|]. split; [reflexivity|eexists; reflexivity].
+Qed.
+
+Theorem sum_slice_forward_error : forall (u : R), (0 <= u < 1)%R ->
+  forall (fadd fsub fmul fdiv : R -> R -> R),
+  (forall x y : R, exists d : R, (Rabs d <= u)%R /\ fadd x y = ((x + y) * (1 + d))%R) ->
+  forall (v : list R) (s e : nat) (r : R),
+  (INR (length (slice v s e)) * u < 1)%R -> sum_slice (A := ARm fadd fsub fmul fdiv) v s e = Ok r ->
+  (Rabs (r - Rsum (length (slice v s e)) (fun k => nth k (slice v s e) 0))
+     <= gam u (length (slice v s e)) * Rsum (length (slice v s e)) (fun k => Rabs (nth k (slice v s e) 0)))%R.
+Proof. intros u Hu fadd fsub fmul fdiv Ha v s e r. exact (sum_slice_forward_error_lemma u Hu fadd fsub fmul fdiv Ha v s e r). Qed.
+Check sum_slice_forward_error : forall (u : R), (0 <= u < 1)%R ->
+  forall (fadd fsub fmul fdiv : R -> R -> R),
+  (forall x y : R, exists d : R, (Rabs d <= u)%R /\ fadd x y = ((x + y) * (1 + d))%R) ->
+  forall (v : list R) (s e : nat) (r : R),
+  (INR (length (slice v s e)) * u < 1)%R -> sum_slice (A := ARm fadd fsub fmul fdiv) v s e = Ok r ->
+  (Rabs (r - Rsum (length (slice v s e)) (fun k => nth k (slice v s e) 0))
+     <= gam u (length (slice v s e)) * Rsum (length (slice v s e)) (fun k => Rabs (nth k (slice v s e) 0)))%R.
+Print Assumptions sum_slice_forward_error.
+Example sum_slice_forward_error_nonvacuous :
+  let v := [1%R; 2%R; 3%R; 4%R] in
+  (0 <= ux < 1)%R /\ (INR (length (slice v 1 2)) * ux < 1)%R /\ exists r, sum_slice (A := AFlx) v 1 2 = Ok r.
+Proof. cbn zeta. split; [exact ux_range|]. split; [cbn; pose proof ux_small; lra|eexists; reflexivity]. Qed.
+
+Theorem sum_slice_backward_error_float : forall (v : list PrimFloat.float) (s e : nat) (r : PrimFloat.float),
+  sum_slice (A := AF) v s e = Ok r -> ffinite r -> (INR (length (slice v s e)) * u64 < 1)%R ->
+  exists th : nat -> R,
+    (forall k, (k < length (slice v s e))%nat -> (Rabs (th k) <= g64 (length (slice v s e)))%R) /\
+    FR r = Rsum (length (slice v s e)) (fun k => (FR (nth k (slice v s e) 0%float) * (1 + th k))%R).
+Proof. exact sum_slice_backward_error_float_lemma. Qed.
+Check sum_slice_backward_error_float : forall (v : list PrimFloat.float) (s e : nat) (r : PrimFloat.float),
+  sum_slice (A := AF) v s e = Ok r -> ffinite r -> (INR (length (slice v s e)) * u64 < 1)%R ->
+  exists th : nat -> R,
+    (forall k, (k < length (slice v s e))%nat -> (Rabs (th k) <= g64 (length (slice v s e)))%R) /\
+    FR r = Rsum (length (slice v s e)) (fun k => (FR (nth k (slice v s e) 0%float) * (1 + th k))%R).
+Print Assumptions sum_slice_backward_error_float.
+Example sum_slice_backward_error_float_nonvacuous :   (* 0.1 + 1.5 + 3 in binary64 (0.1 as its nearest double): inexact *)
+  let v := [0x1.999999999999ap-4%float; 1.5%float; 3%float] in
+  (exists r, sum_slice (A := AF) v 0 2 = Ok r /\ ffinite r) /\ (INR (length (slice v 0 2)) * u64 < 1)%R.
+Proof.
+  cbn zeta. split; [eexists; split; [reflexivity|apply ffinite_SF; reflexivity]|].
+  cbn; pose proof u64_small; lra.
+Qed.
+
+Theorem sum_slice_forward_error_float : forall (v : list PrimFloat.float) (s e : nat) (r : PrimFloat.float),
+  sum_slice (A := AF) v s e = Ok r -> ffinite r -> (INR (length (slice v s e)) * u64 < 1)%R ->
+  (Rabs (FR r - Rsum (length (slice v s e)) (fun k => FR (nth k (slice v s e) 0%float)))
+     <= g64 (length (slice v s e)) * Rsum (length (slice v s e)) (fun k => Rabs (FR (nth k (slice v s e) 0%float))))%R.
+Proof. exact sum_slice_forward_error_float_lemma. Qed.
+Check sum_slice_forward_error_float : forall (v : list PrimFloat.float) (s e : nat) (r : PrimFloat.float),
+  sum_slice (A := AF) v s e = Ok r -> ffinite r -> (INR (length (slice v s e)) * u64 < 1)%R ->
+  (Rabs (FR r - Rsum (length (slice v s e)) (fun k => FR (nth k (slice v s e) 0%float)))
+     <= g64 (length (slice v s e)) * Rsum (length (slice v s e)) (fun k => Rabs (FR (nth k (slice v s e) 0%float))))%R.
+Print Assumptions sum_slice_forward_error_float.
+Example sum_slice_forward_error_float_nonvacuous :
+  let v := [0x1.999999999999ap-4%float; (-1.5)%float; 3%float] in
+  (exists r, sum_slice (A := AF) v 0 2 = Ok r /\ ffinite r) /\ (INR (length (slice v 0 2)) * u64 < 1)%R.
+Proof.
+  cbn zeta. split; [eexists; split; [reflexivity|apply ffinite_SF; reflexivity]|].
+  cbn; pose proof u64_small; lra.
+Qed.
+
+(* norm_1 at the primitive floats: relative error gam n whenever the computed norm is finite *)
+Theorem norm_1_relative_error_float : forall (v : list PrimFloat.float),
+  ffinite (norm_1 (A := AF) v) -> (INR (length v) * u64 < 1)%R ->
+  (Rabs (FR (norm_1 (A := AF) v) - Rsum (length v) (fun k => Rabs (FR (nth k v 0%float))))
+     <= g64 (length v) * Rsum (length v) (fun k => Rabs (FR (nth k v 0%float))))%R.
+Proof. exact norm_1_relative_error_float_lemma. Qed.
+Check norm_1_relative_error_float : forall (v : list PrimFloat.float),
+  ffinite (norm_1 (A := AF) v) -> (INR (length v) * u64 < 1)%R ->
+  (Rabs (FR (norm_1 (A := AF) v) - Rsum (length v) (fun k => Rabs (FR (nth k v 0%float))))
+     <= g64 (length v) * Rsum (length v) (fun k => Rabs (FR (nth k v 0%float))))%R.
+Print Assumptions norm_1_relative_error_float.
+Example norm_1_relative_error_float_nonvacuous :
+  let v := [0x1.999999999999ap-4%float; (-1.5)%float; 3%float] in
+  ffinite (norm_1 (A := AF) v) /\ (INR (length v) * u64 < 1)%R.
+Proof. cbn zeta. split; [apply ffinite_SF; reflexivity|cbn; pose proof u64_small; lra]. Qed.
+
